@@ -16,6 +16,8 @@ clock scenario  {'kind': 'clock', 'clocks': [tempo, ...], 'tasks': [{'clock': ci
          ['tempo', ci, value]    TempoClock ci .tempo = value            (pending tasks keep their beat)
          ['beats', ci, back]     TempoClock ci .beats = clock.beats - back   (back >= 0: tasks are postponed)
     wake-up k of a task runs steps[k] (log, acts, return/yield ret); a Routine that returned is dead.
+    ret 'raise' / 'raiseB': the task raises RuntimeError / a BaseException that is not an Exception.
+    numbers: 'i:2' int, 'z:0' float -0.0, else Fraction string (explicit zeros of every kind).
     result: {'log': [[j, seconds], ...], 'left': live entries left in the scheduler}
 
 score scenario  {'kind': 'score', 'tasks': [{'steps': [{'acts': [['bundle', latency|None, id], ...],
@@ -25,9 +27,16 @@ score scenario  {'kind': 'score', 'tasks': [{'steps': [{'acts': [['bundle', late
 ppar scenario   {'kind': 'ppar', 'streams': [[dur, dur, ...], ...]}
     result: {'events': [[stream, k, onset], ...]}
 """
-from fractions import Fraction as Fr
+from fractions import Fraction as _Fraction
 from math import floor
 from oracles.sorted_queue import SortedListQueue
+
+
+def Fr(x):
+    """numbers travel as strings: 'i:2' (int), 'z:0' (float -0.0) or a Fraction string"""
+    if isinstance(x, str) and x[:2] in ('i:', 'z:'):
+        x = x[2:]
+    return _Fraction(x)
 
 
 class RefClock:
@@ -104,7 +113,7 @@ def ref_clock(sc):
         for a in steps[k]['acts']:
             act(a)
         ret = steps[k]['ret']
-        if ret is None:
+        if ret is None or ret in ('raise', 'raiseB'):       # an error in a task ends it, nobody else is disturbed
             if tasks[j]['type'] == 'R':
                 dead[j] = True
         else:
@@ -200,11 +209,15 @@ def judge_score(sc, res):
         return ('order', 'timetags of the rendered score decrease: %s' % raw)
     if any(a > b for a, b in zip(lt, lt[1:])):
         return ('order', 'times of the score list decrease: %s' % lst)
+    if res.get('mutated'):
+        return ('other', 'the caller\'s message lists were modified in place: ids %s' % res['mutated'])
     if lst != raw:
         return ('iter', 'queue position (list view) and timetag of the bundle disagree: list %s raw %s' % (lst, raw))
     if lst != exp:
-        same = sorted(map(tuple, lst)) == sorted(map(tuple, exp))
-        return ('fifo-on-ties' if same else 'order', 'score is %s, expected %s' % (lst, exp))
+        same = sorted(map(repr, lst)) == sorted(map(repr, exp))
+        fewer = len(lst) < len(exp)
+        return ('fifo-on-ties' if same else 'at-most-once' if fewer else 'order',
+                'score is %s, expected %s%s' % (lst, exp, ' (entries are missing: equal-looking bundles collapsed?)' if fewer else ''))
     return None
 
 
